@@ -12,7 +12,7 @@ use flsrc::uci::Flounder;
 use refchess::{Kind, Mv, Pos};
 use serde_json::{json, Value};
 
-pub const RULE: &str = "game histories with controlled multiplicities: from startpos or a generated valid FEN, a random prefix, then shuffle cycles (both sides move a man out and back, 0..3 full cycles, knight/king/rook/bishop/queen shuffles, with and without lost castling rights, vanished ep squares or an intervening irreversible move) and a partial cycle, so that the candidate successors of the final position P have 0, 1, 2 or >=3 earlier occurrences; 1..2 position commands on a fresh engine (only the last one's history may count; in a fifth of the cases the game is given first and then its final position again as a bare 'position fen …' / 'position startpos' without moves, whose history is that single position). Oracle (value level, through the real command path): 'position ...' then 'go depth 1'; the score of the completed depth-1 iteration must equal max over legal m of ( n(m) >= 2 ? 0 : -Q(P·m) ), Q = reference quiescence value, n(m) = occurrences of P·m in the most recent command's history. Successors whose count differs between the rule-book identity (ep only if capturable) and the exact-field identity are not judged. Non-trivial = the case discriminates (value with the draw rule != value without it, or a successor seen exactly once keeps its real non-zero value while deciding the maximum) ; distinct by command text. Part 'deep' (values two and three plies down): the same kind of game (mostly 3..6 men, often one or two plies off the shuffle cycle so that the twice-seen positions lie two or three plies below the root), then 'go depth 2|3' on a fresh engine; EVERY completed iteration i must report V_h(P,i) = plain minimax over the reference rules in which any position below the root that the judged history already shows twice is worth 0, leaves by the reference quiescence (with depth <= 3 no position can recur inside the line itself, and the deeper-entry-reuse counter must be 0). Cases whose value differs between the two identities of positions are not judged. Non-trivial there = the rule applied one ply below the root only would give another value (a draw two or three plies down decides), or an abandoned earlier game would; distinct by (command text, depth).";
+pub const RULE: &str = "game histories with controlled multiplicities: from startpos or a generated valid FEN, a random prefix, then shuffle cycles (both sides move a man out and back, 0..3 full cycles, knight/king/rook/bishop/queen shuffles, with and without lost castling rights, vanished ep squares or an intervening irreversible move) and a partial cycle, so that the candidate successors of the final position P have 0, 1, 2 or >=3 earlier occurrences; 1..2 position commands on a fresh engine (only the last one's history may count; in a fifth of the cases the game is given first and then its final position again as a bare 'position fen …' / 'position startpos' without moves, whose history is that single position). Oracle (value level, through the real command path): 'position ...' then 'go depth 1'; the score of the completed depth-1 iteration must equal max over legal m of ( n(m) >= 2 ? 0 : -Q(P·m) ), Q = reference quiescence value, n(m) = occurrences of P·m in the most recent command's history. Successors whose count differs between the rule-book identity (ep only if capturable) and the exact-field identity are not judged. Non-trivial = the case discriminates (value with the draw rule != value without it, or a successor seen exactly once keeps its real non-zero value while deciding the maximum) ; distinct by command text. Part 'veteran': the same depth-1 oracle on an engine that keeps searching heavy middlegame positions in between (chunks of 1.4 M nodes ended by a node deadline; 9 chunks per engine quick, 40 thorough), one few-men case after every chunk — the tables hold hundreds of thousands of entries by then (maximum reported), nothing of which the case may use (a judged search that used a cached result is excluded). Part 'deep' (values two and three plies down): the same kind of game (mostly 3..6 men, often one or two plies off the shuffle cycle so that the twice-seen positions lie two or three plies below the root), then 'go depth 2|3' on a fresh engine; EVERY completed iteration i must report V_h(P,i) = plain minimax over the reference rules in which any position below the root that the judged history already shows twice is worth 0, leaves by the reference quiescence (with depth <= 3 no position can recur inside the line itself, and the deeper-entry-reuse counter must be 0). Cases whose value differs between the two identities of positions are not judged. Non-trivial there = the rule applied one ply below the root only would give another value (a draw two or three plies down decides), or an abandoned earlier game would; distinct by (command text, depth).";
 
 pub fn reversible(p: &Pos, m: &Mv) -> bool {
     let i = p.info(*m);
@@ -336,6 +336,12 @@ fn build_case(bytes: &[u8], deep: bool, stats: &mut Stats) -> Option<Case> {
 /// of the LAST command (its final element is the position searched); `old_history`, if any, is a
 /// game given by an earlier command that must not count (used only to classify the case).
 pub fn judge(cmds: &[String], judged_history: &[Pos], old_history: Option<&[Pos]>, stats: &mut Stats) -> Verdict {
+    judge_on(None, cmds, judged_history, old_history, stats)
+}
+
+/// The same oracle on a given engine (part 'veteran': an engine that has searched millions of nodes
+/// of OTHER positions before; a search that used any cached result is not judged).
+pub fn judge_on(engine: Option<&mut Flounder>, cmds: &[String], judged_history: &[Pos], old_history: Option<&[Pos]>, stats: &mut Stats) -> Verdict {
     let cmds: Vec<String> = cmds.to_vec();
     let p = judged_history.last().unwrap().clone();
     let legal = p.legal_moves();
@@ -384,8 +390,17 @@ pub fn judge(cmds: &[String], judged_history: &[Pos], old_history: Option<&[Pos]
         stats.exclude("occurrence count depends on the ep convention (not judged)");
         return Ok(());
     }
-    // the engine: fresh process image, position command(s), go depth 1
-    let mut fl = Flounder::new();
+    // the engine: fresh process image (or the given veteran), position command(s), go depth 1
+    let mut fresh;
+    let veteran = engine.is_some();
+    let fl: &mut Flounder = match engine {
+        Some(e) => e,
+        None => {
+            fresh = Flounder::new();
+            &mut fresh
+        }
+    };
+    let hits_before = fl.verif_searcher().verif.tt_hits.get();
     let r = std::panic::catch_unwind(std::panic::AssertUnwindSafe(|| {
         for c in &cmds {
             fl.verif_handle_command(c);
@@ -414,6 +429,10 @@ pub fn judge(cmds: &[String], judged_history: &[Pos], old_history: Option<&[Pos]
         }
     };
     stats.eval();
+    if veteran && fl.verif_searcher().verif.tt_hits.get() != hits_before {
+        stats.exclude("veteran engine: the judged search used a result cached earlier (not judged)");
+        return Ok(());
+    }
     let Some((_, score, _, mv)) = infos.iter().find(|i| i.0 == 1).copied() else {
         return Err(Failure::new("no-depth-1-info", json!({"commands": cmds})));
     };
@@ -620,6 +639,78 @@ fn check_deep(bytes: &[u8], stats: &mut Stats) -> Verdict {
     }
 }
 
+/// Part 'veteran': the depth-1 oracle on an engine that keeps searching heavy middlegame positions
+/// in between (chunks of about a million nodes each, ended by a node deadline), so that its tables
+/// grow to hundreds of thousands of entries; after every chunk one C09 case (few men: nothing the
+/// heavy searches can have cached) is judged.  Whatever the engine does when its tables pass some
+/// size must not touch the game history given by the position command.
+fn part_veteran(bytes: &[u8], stats: &mut Stats) -> Verdict {
+    let mut s = Src::new(bytes);
+    let rounds = VETERAN_ROUNDS.with(|c| c.get());
+    let chunk = 1_400_000u64;
+    let mut fl = Flounder::new();
+    let mut heavy_log: Vec<Value> = Vec::new();
+    let mut total_nodes = 0u64;
+    for round in 0..rounds {
+        // heavy chunk: the start position after 0..6 random plies, searched until the node deadline
+        let mut p = Pos::startpos();
+        let mut text = String::from("position startpos");
+        let plies = s.below(7);
+        for i in 0..plies {
+            let legal = p.legal_moves();
+            let Some(m) = gen::choose_move(&mut s, &p, &legal) else { break };
+            text.push_str(if i == 0 { " moves " } else { " " });
+            text.push_str(&m.uci());
+            p = p.make(m);
+        }
+        if p.legal_moves().is_empty() {
+            continue;
+        }
+        let r = std::panic::catch_unwind(std::panic::AssertUnwindSafe(|| {
+            fl.verif_handle_command(&text);
+            let sr = fl.verif_searcher();
+            sr.verif_set_node_limit(Some(chunk));
+            sr.verif_set_hard_cap(Some(chunk + 3_000_000));
+            fl.verif_handle_command("go depth 12");
+            let sr = fl.verif_searcher();
+            sr.verif_set_node_limit(None);
+            sr.verif_nodes()
+        }));
+        match r {
+            Ok(n) => total_nodes += n,
+            Err(pn) => return Err(Failure::new("command-panic", json!({"heavy_searches": heavy_log, "command": text, "panic": crate::panic_text(&pn)}))),
+        }
+        heavy_log.push(json!({"position": text, "node_deadline": chunk}));
+        let entries = fl.verif_searcher().verif_tt_entries().len();
+        stats.maximum("veteran_table_entries_when_a_case_was_judged", entries as i64);
+        stats.maximum("veteran_nodes_searched_before_a_case", total_nodes as i64);
+        // one C09 case on the veteran
+        let Some(c) = build_case(&bytes[(round * 37) % bytes.len().max(1)..], true, stats) else { continue };
+        if c.judged_history.last().map(|p| p.men()).unwrap_or(32) > 10 {
+            stats.exclude("veteran: generated case has too many men to be disjoint from the heavy searches");
+            continue;
+        }
+        if let Err(mut f) = judge_on(Some(&mut fl), &c.cmds, &c.judged_history, c.old_history.as_deref(), stats) {
+            f.detail["engine_had_searched_before"] = json!(heavy_log);
+            f.detail["table_entries_before_the_case"] = json!(entries);
+            f.sig = format!("{}-on-an-engine-with-full-tables", f.sig);
+            return Err(f);
+        }
+        stats.class("veteran_cases_judged_after_heavy_searches");
+        stats.class(match entries {
+            0..=99_999 => "veteran_case_with_under_100k_table_entries",
+            100_000..=299_999 => "veteran_case_with_100k_300k_table_entries",
+            300_000..=599_999 => "veteran_case_with_300k_600k_table_entries",
+            _ => "veteran_case_with_over_600k_table_entries",
+        });
+    }
+    Ok(())
+}
+
+thread_local! {
+    static VETERAN_ROUNDS: std::cell::Cell<usize> = std::cell::Cell::new(9);
+}
+
 pub fn run(tier: Tier, seed: u64, known: &Known) -> PropRun {
     let mut run = PropRun::new("exploration", RULE);
     run.assumptions = vec![
@@ -633,6 +724,16 @@ pub fn run(tier: Tier, seed: u64, known: &Known) -> PropRun {
     if run.failure.is_none() {
         let part = Part { name: "deep", cases: tier.pick(2_000, 60_000), min_len: 24, max_len: 600, max_shrink: 200, threads: threads() };
         let (st, fl) = run_part(&part, seed, known, check_deep);
+        run.stats.merge(st);
+        run.failure = fl;
+    }
+    if run.failure.is_none() {
+        let rounds = tier.pick(9usize, 40usize);
+        let part = Part { name: "veteran", cases: tier.pick(16, 64), min_len: 400, max_len: 800, max_shrink: 0, threads: threads() };
+        let (st, fl) = run_part(&part, seed, known, |b, st| {
+            VETERAN_ROUNDS.with(|c| c.set(rounds));
+            part_veteran(b, st)
+        });
         run.stats.merge(st);
         run.failure = fl;
     }
@@ -654,6 +755,10 @@ pub fn replay(part: &str, bytes: &[u8], case: &Value, stats: &mut Stats) -> Verd
     }
     if part == "deep" {
         return check_deep(bytes, stats);
+    }
+    if part == "veteran" {
+        VETERAN_ROUNDS.with(|c| c.set(40));
+        return part_veteran(bytes, stats);
     }
     check(bytes, stats)
 }
